@@ -27,15 +27,30 @@
 /* ------------------------------------------------------------------ ghost: the document object */
 uint8_t *g_doc;
 size_t g_doc_len;
-size_t g_doc_off;  /* offset of parser->doc inside the document when a contract is enforced */
+/* Positions inside the document are stated twice: as same-object/offset facts (checked at every replaced call site)
+ * and - to give the pointer a VALUE in the unit that ENFORCES the contract, resp. behind a REPLACED call - through
+ * __CPROVER_pointer_equals with a ghost offset (DESIGN 4.3, BUILD_GUIDE "pointer results of replaced contracts").
+ * g_enf names the function whose contract the running unit enforces (set by its harness); for that function the ghost
+ * offsets g_doc_off / g_name_off / g_decl_off are INPUTS chosen by the harness, for every other function they are
+ * Skolem OUTPUTS of the replaced contract. */
+enum { XF_NONE = 0, XF_ADV, XF_DECL, XF_SIB, XF_TRAV, XF_BODY, XF_PARSE, XF_CB, XF_ATTR };
+int g_enf;
+#define ENF(f) (g_enf == (f))
+size_t g_doc_off;  /* offset of parser->doc inside the document */
 size_t g_name_off; /* offset of node->name inside the document */
+size_t g_decl_off; /* offset of the declaration text inside the document */
+size_t g_cb_off;   /* where a callback / a replaced entry point left the parser */
+size_t g_an_off, g_av_off; /* offsets of the witness attribute's name / value */
+bool g_cb_room;   /* unit xml_callback_model only: the callback stack has room for one more entry */
+#define AT_OFF(ptr, off) PEQ((ptr), g_doc + (off))
 size_t g_fx;       /* Skolem witness of find_exact: offset of the match inside the searched cursor */
 size_t g_ai;       /* arbitrary attribute index ("for all attributes") */
 
-#define XML_GHOST_RESET() do { GHOST_RESET(); g_on = false; } while (0)
+#define XML_GHOST_RESET() do { GHOST_RESET(); g_on = false; g_enf = XF_NONE; g_cb_room = false; } while (0)
 
-/* the document object; the empty document may be the NULL view */
-#define DOC_OK (g_doc_len < VERIF_HUGE && ((g_doc_len == 0 && g_doc == NULL) || __CPROVER_is_fresh(g_doc, g_doc_len)))
+/* the document object (possibly of size 0: then every access is flagged).  The NULL-with-zero-length view is a separate,
+ * concrete unit (xml_parse_null_doc). */
+#define DOC_OK (g_doc_len < VERIF_HUGE && __CPROVER_is_fresh(g_doc, g_doc_len))
 /* c (a struct aws_byte_cursor lvalue) lies inside the document */
 #define IN_DOC(c) (SAME((c).ptr, g_doc) && POFF((c).ptr) <= g_doc_len && (c).len <= g_doc_len - POFF((c).ptr))
 /* a zero-length view carries no bytes: any pointer is acceptable (next_split hands out "" for a NULL input) */
@@ -79,6 +94,7 @@ __CPROVER_requires(BUF_OK(to))
 __CPROVER_requires(CUR_OK(from))
 __CPROVER_assigns(APPEND_FITS(to, from) : to->len)
 __CPROVER_assigns(APPEND_FITS(to, from) && from->len > 0 : __CPROVER_object_whole(to->buffer))
+__CPROVER_assigns(!APPEND_FITS(to, from) : g_last_error, g_raise_count)
 __CPROVER_ensures(RET == AWS_OP_SUCCESS || RET == AWS_OP_ERR)
 __CPROVER_ensures((RET == AWS_OP_SUCCESS) == (OLD(to->capacity) - OLD(to->len) >= from->len))
 __CPROVER_ensures(RET == AWS_OP_SUCCESS ==> to->len == OLD(to->len) + from->len)
@@ -86,42 +102,204 @@ __CPROVER_ensures(RET != AWS_OP_SUCCESS ==> to->len == OLD(to->len))
 __CPROVER_ensures(BUF_SHAPE_KEPT(to))
 ;
 
+/* ------------------------------------------------------------------ the callback stack (struct cb_stack_data of xml_parser.c:19,
+ * mirrored here because the contracts precede the file) and the parser state every entry point requires/ensures */
+struct xmlc_cb_entry {
+    aws_xml_parser_on_node_encountered_fn *cb;
+    void *user_data;
+};
+#define XML_ENTRY(p, i) (((struct xmlc_cb_entry *)(p)->callback_stack.data)[i])
+/* header of a dynamic list of 16-byte entries; storage validity is stated separately (is_fresh in requires) */
+#define XML_STACK_HDR_OK(p)                                                                                            \
+    ((p)->callback_stack.item_size == sizeof(struct xmlc_cb_entry) && (p)->callback_stack.alloc != NULL &&             \
+     (p)->callback_stack.current_size >= sizeof(struct xmlc_cb_entry) && (p)->callback_stack.current_size < VERIF_HUGE && \
+     (p)->callback_stack.length <= (p)->callback_stack.current_size / sizeof(struct xmlc_cb_entry))
+#define XML_STACK_OK(p) (XML_STACK_HDR_OK(p) && __CPROVER_is_fresh((p)->callback_stack.data, (p)->callback_stack.current_size))
+/* the next push has to grow the storage */
+#define XML_STACK_FULL(p) ((p)->callback_stack.current_size / sizeof(struct xmlc_cb_entry) <= (p)->callback_stack.length)
+#define XML_ERR_OK(p) ((p)->error == 0 || ((p)->error == AWS_OP_ERR && g_last_error != 0))
+
+/* requires: parser->doc is a suffix of the document (f: the function this clause belongs to) */
+#define XML_REQ_DOC(f, p)                                                                                              \
+    __CPROVER_requires(DOC_OK)                                                                                          \
+    __CPROVER_requires(ENF(f) ==> g_doc_off <= g_doc_len && AT_OFF((p)->doc.ptr, g_doc_off))                            \
+    __CPROVER_requires(SUFFIX((p)->doc))
+/* ensures: still a suffix, moved forward only; behind a replaced call the new position is g_cb_off */
+#define XML_ENS_DOC(f, p)                                                                                              \
+    __CPROVER_ensures(!ENF(f) ==> g_cb_off <= g_doc_len && AT_OFF((p)->doc.ptr, g_cb_off))                              \
+    __CPROVER_ensures(SUFFIX((p)->doc) && POFF((p)->doc.ptr) >= POFF(OLD((p)->doc.ptr)))
+/* requires: node sits at the parser's position, not consumed yet, its name inside the document */
+#define XML_REQ_NODE(f, node)                                                                                          \
+    __CPROVER_requires(PEQ((node)->doc_at_body.ptr, (node)->parser->doc.ptr) && (node)->doc_at_body.len == (node)->parser->doc.len) \
+    __CPROVER_requires(ENF(f) ==> g_name_off <= g_doc_len && AT_OFF((node)->name.ptr, g_name_off))                      \
+    __CPROVER_requires(IN_DOC((node)->name))                                                                            \
+    __CPROVER_requires((node)->parser->error == 0)
+#define XML_SCRATCH_FRAME(p)                                                                                           \
+    __CPROVER_assigns(__CPROVER_object_upto((uint8_t *)(p)->attributes, sizeof((p)->attributes)))                       \
+    __CPROVER_assigns(__CPROVER_object_upto((uint8_t *)(p)->split_scratch, sizeof((p)->split_scratch)))
+
+/* ------------------------------------------------------------------ what a user callback may do (DESIGN 4.6) - ASSUMED for
+ * user code, and checked against a sample callback that takes every legal action (unit xml_callback_model):
+ * leave the node alone (then the parser is exactly where it was), or consume it through aws_xml_node_as_body /
+ * aws_xml_node_traverse (then the parser has moved forward to some suffix of the document, node->processed is set and
+ * parser->error may be set).  Any return value; a non-zero one comes with a registered error code (error convention).
+ * The callback stack: only its length and contents may differ afterwards (nested traversals push/pop); re-allocation of
+ * its storage inside the callback is not modelled - the parser re-reads the list header on every use. */
+int xml_cb_contract(struct aws_xml_node *node, void *user_data)
+__CPROVER_requires(__CPROVER_is_fresh(node, sizeof(*node)) && __CPROVER_is_fresh(node->parser, sizeof(*node->parser)))
+XML_REQ_DOC(XF_CB, node->parser)
+XML_REQ_NODE(XF_CB, node)
+__CPROVER_requires(!node->processed)
+__CPROVER_requires(XML_STACK_OK(node->parser))
+__CPROVER_requires(g_cb_room ==> !XML_STACK_FULL(node->parser))
+__CPROVER_assigns(node->processed, node->parser->doc.ptr, node->parser->doc.len, node->parser->error, node->parser->callback_stack.length)
+XML_SCRATCH_FRAME(node->parser)
+__CPROVER_assigns(__CPROVER_object_whole(node->parser->callback_stack.data))
+__CPROVER_assigns(g_cb_off, g_fx, g_mm, g_last_error, g_raise_count)
+__CPROVER_ensures(RET != 0 ==> g_last_error != 0)
+__CPROVER_ensures(XML_ERR_OK(node->parser) && XML_STACK_HDR_OK(node->parser))
+XML_ENS_DOC(XF_CB, node->parser)
+__CPROVER_ensures(!node->processed ==> node->parser->error == 0 && POFF(node->parser->doc.ptr) == POFF(OLD(node->parser->doc.ptr)))
+;
+
+/* ------------------------------------------------------------------ s_load_node_decl: "<" decl_body ">" with decl_body a view
+ * INSIDE the document that starts behind a '<' (offset >= 1).  Name and every attribute name/value are views inside
+ * decl_body; at most 10 attributes, stored in parser->attributes. */
+/* c lies inside the view d (both inside the document) */
+#define XML_IN_VIEW(c, d) (SAME((c).ptr, g_doc) && POFF((c).ptr) >= POFF((d)->ptr) && POFF((c).ptr) - POFF((d)->ptr) <= (d)->len && \
+                           (c).len <= (d)->len - (POFF((c).ptr) - POFF((d)->ptr)))
+static int s_load_node_decl(struct aws_xml_parser *parser, struct aws_byte_cursor *decl_body, struct aws_xml_node *node)
+__CPROVER_requires(__CPROVER_is_fresh(parser, sizeof(*parser)) && __CPROVER_is_fresh(node, sizeof(*node)) && __CPROVER_is_fresh(decl_body, sizeof(*decl_body)))
+__CPROVER_requires(DOC_OK)
+__CPROVER_requires(ENF(XF_DECL) ==> g_decl_off <= g_doc_len && AT_OFF(decl_body->ptr, g_decl_off))
+__CPROVER_requires(IN_DOC(*decl_body) && POFF(decl_body->ptr) >= 1)
+__CPROVER_requires(node->attributes.length == 0 && node->attributes.data == NULL && node->attributes.current_size == 0 && node->attributes.item_size == 0 && node->attributes.alloc == NULL)
+__CPROVER_assigns(node->is_empty, node->name, node->attributes, g_name_off, g_an_off, g_av_off, g_mm, g_last_error, g_raise_count)
+XML_SCRATCH_FRAME(parser)
+__CPROVER_ensures(RET == AWS_OP_SUCCESS || RET == AWS_OP_ERR)
+__CPROVER_ensures(RET == AWS_OP_ERR ==> g_last_error == AWS_ERROR_INVALID_XML)
+__CPROVER_ensures(!ENF(XF_DECL) && RET == AWS_OP_SUCCESS ==> g_name_off <= g_doc_len && AT_OFF(node->name.ptr, g_name_off))
+__CPROVER_ensures(RET == AWS_OP_SUCCESS ==> XML_IN_VIEW(node->name, decl_body))
+/* no attribute: the list is still the empty one; otherwise a static list over parser->attributes with <= 10 entries */
+__CPROVER_ensures(RET == AWS_OP_SUCCESS ==> (node->attributes.length == 0 && node->attributes.data == NULL) ||
+                  (node->attributes.length <= 10 && node->attributes.item_size == sizeof(struct aws_xml_attribute) &&
+                   node->attributes.current_size == sizeof(parser->attributes) && node->attributes.alloc == NULL &&
+                   PEQ(node->attributes.data, (void *)parser->attributes)))
+__CPROVER_ensures(!ENF(XF_DECL) && RET == AWS_OP_SUCCESS && g_ai < node->attributes.length ==>
+                  g_an_off <= g_doc_len && AT_OFF(parser->attributes[g_ai].name.ptr, g_an_off) &&
+                  g_av_off <= g_doc_len && AT_OFF(parser->attributes[g_ai].value.ptr, g_av_off))
+__CPROVER_ensures(RET == AWS_OP_SUCCESS && g_ai < node->attributes.length ==>
+                  (parser->attributes[g_ai].name.len == 0 || XML_IN_VIEW(parser->attributes[g_ai].name, decl_body)) &&
+                  (parser->attributes[g_ai].value.len == 0 || XML_IN_VIEW(parser->attributes[g_ai].value, decl_body)))
+;
+
 /* ------------------------------------------------------------------ s_advance_to_closing_tag
  * Every call site has parser->doc == node->doc_at_body (a callback that left the node alone cannot have moved the
  * parser) and parser->error == 0 (DESIGN 5/C04). */
-#define XML_PARSER_NODE_REQ                                                                                            \
-    __CPROVER_requires(__CPROVER_is_fresh(parser, sizeof(*parser)) && __CPROVER_is_fresh(node, sizeof(*node)))          \
-    __CPROVER_requires(DOC_OK)                                                                                          \
-    __CPROVER_requires(g_doc_off <= g_doc_len && PEQ(parser->doc.ptr, g_doc_len == 0 ? g_doc : g_doc + g_doc_off) &&    \
-                       parser->doc.len == g_doc_len - g_doc_off)                                                        \
-    __CPROVER_requires(PEQ(node->doc_at_body.ptr, parser->doc.ptr) && node->doc_at_body.len == parser->doc.len)        \
-    __CPROVER_requires(g_name_off <= g_doc_len && PEQ(node->name.ptr, g_doc_len == 0 ? g_doc : g_doc + g_name_off) &&   \
-                       node->name.len <= g_doc_len - g_name_off)                                                        \
-    __CPROVER_requires(parser->error == 0)
-
 int s_advance_to_closing_tag(struct aws_xml_parser *parser, struct aws_xml_node *node, struct aws_byte_cursor *out_body)
-XML_PARSER_NODE_REQ
+__CPROVER_requires(__CPROVER_is_fresh(parser, sizeof(*parser)) && __CPROVER_is_fresh(node, sizeof(*node)))
+__CPROVER_requires(ENF(XF_ADV) ==> PEQ(node->parser, parser))
+__CPROVER_requires(node->parser == parser)
+XML_REQ_DOC(XF_ADV, parser)
+XML_REQ_NODE(XF_ADV, node)
 __CPROVER_requires(out_body == NULL || __CPROVER_is_fresh(out_body, sizeof(*out_body)))
-__CPROVER_assigns(parser->doc.ptr, parser->doc.len, parser->error, g_fx, g_last_error, g_raise_count)
+__CPROVER_assigns(parser->doc.ptr, parser->doc.len, parser->error, g_cb_off, g_fx, g_mm, g_last_error, g_raise_count)
 __CPROVER_assigns(out_body != NULL : *out_body)
 __CPROVER_ensures(RET == AWS_OP_SUCCESS || RET == AWS_OP_ERR)
 __CPROVER_ensures(RET == AWS_OP_ERR ==> g_last_error == AWS_ERROR_INVALID_XML)
 __CPROVER_ensures(parser->error == 0 || (parser->error == AWS_OP_ERR && RET == AWS_OP_ERR))
-__CPROVER_ensures(SUFFIX(parser->doc) && POFF(parser->doc.ptr) >= POFF(OLD(parser->doc.ptr)))
+XML_ENS_DOC(XF_ADV, parser)
 /* an empty element <a/> has no body and no closing tag */
 __CPROVER_ensures(node->is_empty ==> RET == AWS_OP_SUCCESS && parser->doc.len == OLD(parser->doc.len) &&
                   (out_body != NULL ==> out_body->ptr == NULL && out_body->len == 0))
-/* success: the parser sits behind "</name>", at least name.len + 3 bytes further on */
-__CPROVER_ensures(!node->is_empty && RET == AWS_OP_SUCCESS ==>
-                  OLD(parser->doc.len) - parser->doc.len >= node->name.len + 3 && node->name.len <= 256)
-/* the body starts where the parser was and ends where that closing tag starts */
+/* success: the name fits the compare buffers and the parser sits behind a "</name>" */
+__CPROVER_ensures(!node->is_empty && RET == AWS_OP_SUCCESS ==> node->name.len <= 256 && parser->doc.len < OLD(parser->doc.len))
+/* the body starts where the parser was and ends before the parser's new position, inside the document */
 __CPROVER_ensures(!node->is_empty && RET == AWS_OP_SUCCESS && out_body != NULL ==>
-                  PEQ(out_body->ptr, node->doc_at_body.ptr) &&
-                  out_body->len == OLD(parser->doc.len) - parser->doc.len - (node->name.len + 3))
-/* ... and the bytes right behind the body are "</name>" (stated for the arbitrary position g_j of that tag) */
-__CPROVER_ensures(g_on && !node->is_empty && RET == AWS_OP_SUCCESS && out_body != NULL && g_j < node->name.len + 3 ==>
-                  out_body->ptr[out_body->len + g_j] ==
-                      (g_j == 0 ? '<' : g_j == 1 ? '/' : g_j == node->name.len + 2 ? '>' : node->name.ptr[g_j - 2]))
+                  PEQ(out_body->ptr, node->doc_at_body.ptr) && out_body->len <= OLD(parser->doc.len) &&
+                  POFF(parser->doc.ptr) - (node->name.len + 3) - POFF(node->doc_at_body.ptr) == out_body->len)
+;
+
+/* ------------------------------------------------------------------ entry points used by callbacks */
+int aws_xml_node_as_body(struct aws_xml_node *node, struct aws_byte_cursor *out_body)
+__CPROVER_requires(__CPROVER_is_fresh(node, sizeof(*node)) && __CPROVER_is_fresh(node->parser, sizeof(*node->parser)))
+XML_REQ_DOC(XF_BODY, node->parser)
+XML_REQ_NODE(XF_BODY, node)
+__CPROVER_requires(!node->processed) /* a node is read as body OR traversed, once: otherwise the documented fatal assert */
+__CPROVER_requires(out_body == NULL || __CPROVER_is_fresh(out_body, sizeof(*out_body)))
+__CPROVER_assigns(node->processed, node->parser->doc.ptr, node->parser->doc.len, node->parser->error, g_cb_off, g_fx, g_mm, g_last_error, g_raise_count)
+__CPROVER_assigns(out_body != NULL : *out_body)
+__CPROVER_ensures(RET == AWS_OP_SUCCESS || RET == AWS_OP_ERR)
+__CPROVER_ensures(node->processed)
+__CPROVER_ensures(RET == AWS_OP_ERR ==> g_last_error == AWS_ERROR_INVALID_XML)
+__CPROVER_ensures(node->parser->error == 0 || (node->parser->error == AWS_OP_ERR && RET == AWS_OP_ERR))
+XML_ENS_DOC(XF_BODY, node->parser)
+__CPROVER_ensures(RET == AWS_OP_SUCCESS && out_body != NULL ==> out_body->len == 0 || (IN_DOC(*out_body) && PEQ(out_body->ptr, node->doc_at_body.ptr)))
+;
+
+/* descending: every child is announced to a callback obeying xml_cb_contract; returns at the parent's closing tag */
+int aws_xml_node_traverse(struct aws_xml_node *node, aws_xml_parser_on_node_encountered_fn *on_node_encountered, void *user_data)
+__CPROVER_requires(__CPROVER_is_fresh(node, sizeof(*node)) && __CPROVER_is_fresh(node->parser, sizeof(*node->parser)))
+XML_REQ_DOC(XF_TRAV, node->parser)
+XML_REQ_NODE(XF_TRAV, node)
+__CPROVER_requires(!node->processed) /* a node is read as body OR traversed, once: otherwise the documented fatal assert */
+__CPROVER_requires(__CPROVER_obeys_contract(on_node_encountered, xml_cb_contract))
+__CPROVER_requires(XML_STACK_OK(node->parser))
+__CPROVER_assigns(node->processed, node->parser->doc.ptr, node->parser->doc.len, node->parser->error)
+__CPROVER_assigns(node->parser->callback_stack.length)
+__CPROVER_assigns(XML_STACK_FULL(node->parser) : node->parser->callback_stack.data, node->parser->callback_stack.current_size)
+__CPROVER_assigns(__CPROVER_object_whole(node->parser->callback_stack.data))
+__CPROVER_frees(XML_STACK_FULL(node->parser) : node->parser->callback_stack.data)
+XML_SCRATCH_FRAME(node->parser)
+__CPROVER_assigns(g_cb_off, g_name_off, g_an_off, g_av_off, g_fx, g_mm, g_last_error, g_raise_count)
+__CPROVER_ensures(RET == AWS_OP_SUCCESS || RET == AWS_OP_ERR)
+__CPROVER_ensures(node->processed)
+__CPROVER_ensures(RET == AWS_OP_ERR ==> g_last_error != 0)
+__CPROVER_ensures(XML_ERR_OK(node->parser) && (node->parser->error == AWS_OP_ERR ==> RET == AWS_OP_ERR))
+XML_ENS_DOC(XF_TRAV, node->parser)
+__CPROVER_ensures(XML_STACK_HDR_OK(node->parser))
+;
+
+/* the root element: announced to the callback on top of the callback stack */
+int s_node_next_sibling(struct aws_xml_parser *parser)
+__CPROVER_requires(__CPROVER_is_fresh(parser, sizeof(*parser)))
+XML_REQ_DOC(XF_SIB, parser)
+__CPROVER_requires(parser->error == 0)
+__CPROVER_requires(XML_STACK_OK(parser) && parser->callback_stack.length >= 1)
+__CPROVER_requires(__CPROVER_obeys_contract(XML_ENTRY(parser, parser->callback_stack.length - 1).cb, xml_cb_contract))
+__CPROVER_assigns(parser->doc.ptr, parser->doc.len, parser->error, parser->callback_stack.length)
+__CPROVER_assigns(__CPROVER_object_whole(parser->callback_stack.data))
+XML_SCRATCH_FRAME(parser)
+__CPROVER_assigns(g_cb_off, g_name_off, g_an_off, g_av_off, g_fx, g_mm, g_last_error, g_raise_count)
+__CPROVER_ensures(RET == AWS_OP_SUCCESS || RET == AWS_OP_ERR)
+__CPROVER_ensures(RET == AWS_OP_ERR ==> g_last_error != 0)
+__CPROVER_ensures(XML_ERR_OK(parser) && (parser->error == AWS_OP_ERR ==> RET == AWS_OP_ERR))
+XML_ENS_DOC(XF_SIB, parser)
+__CPROVER_ensures(XML_STACK_HDR_OK(parser))
+;
+
+/* the public entry point: any bytes, any max_depth; 0 or -1, -1 only with a registered error code */
+int aws_xml_parse(struct aws_allocator *allocator, const struct aws_xml_parser_options *options)
+__CPROVER_requires(allocator != NULL && __CPROVER_is_fresh(options, sizeof(*options)))
+__CPROVER_requires(DOC_OK && PEQ(options->doc.ptr, g_doc) && options->doc.len == g_doc_len)
+__CPROVER_requires(__CPROVER_obeys_contract(options->on_root_encountered, xml_cb_contract))
+__CPROVER_assigns(g_cb_off, g_name_off, g_an_off, g_av_off, g_fx, g_mm, g_last_error, g_raise_count)
+__CPROVER_ensures(RET == AWS_OP_SUCCESS || RET == AWS_OP_ERR)
+__CPROVER_ensures(RET == AWS_OP_ERR ==> g_last_error != 0)
+;
+
+/* attribute accessor: index below the count, or the (documented) fatal assert - the caller owes the index */
+struct aws_xml_attribute aws_xml_node_get_attribute(const struct aws_xml_node *node, size_t attribute_index)
+__CPROVER_requires(__CPROVER_is_fresh(node, sizeof(*node)))
+__CPROVER_requires(node->attributes.item_size == sizeof(struct aws_xml_attribute) && node->attributes.length <= 10 &&
+                   node->attributes.current_size == 10 * sizeof(struct aws_xml_attribute) &&
+                   __CPROVER_is_fresh(node->attributes.data, 10 * sizeof(struct aws_xml_attribute)))
+__CPROVER_requires(attribute_index < node->attributes.length)
+__CPROVER_assigns()
+__CPROVER_ensures(RET.name.len == ((struct aws_xml_attribute *)node->attributes.data)[attribute_index].name.len &&
+                  RET.name.ptr == ((struct aws_xml_attribute *)node->attributes.data)[attribute_index].name.ptr &&
+                  RET.value.len == ((struct aws_xml_attribute *)node->attributes.data)[attribute_index].value.len &&
+                  RET.value.ptr == ((struct aws_xml_attribute *)node->attributes.data)[attribute_index].value.ptr)
 ;
 
 #endif
